@@ -181,12 +181,31 @@ func TestSIDWellKnown(t *testing.T) {
 type sidSeqCase struct {
 	SIDs   []sidCase `json:"sids"`
 	Shared []bool    `json:"same_buffer"` // per SID: written over the previous one in the same buffer, or passed in a slice of its own
+	// Broken[i] > 0: before SID i a buffer that is NOT a well-formed SID is passed (what a caller walking a damaged
+	// attribute value passes): SID i cut short by that many bytes, or (100) with revision 0, or (101) announcing 200
+	// sub-authorities. What the call returns for it is not judged here; the calls after it are.
+	Broken []int `json:"malformed_call_before,omitempty"`
 }
 
 func checkSIDSeq(c sidSeqCase) []vf.Finding {
 	buf := make([]byte, 8+4*15+8)
 	for i, sc := range c.SIDs {
 		raw := sc.bytes()
+		if i < len(c.Broken) && c.Broken[i] > 0 {
+			bad := append([]byte{}, raw...)
+			switch c.Broken[i] {
+			case 100:
+				bad[0] = 0
+			case 101:
+				bad[1] = 200
+			default:
+				bad = bad[:max(0, len(bad)-c.Broken[i])]
+			}
+			func() {
+				defer func() { recover() }() // a panic on malformed input is C07's finding
+				ldap.ParseSIDFromBytes(bad)
+			}()
+		}
 		in := append([]byte{}, raw...)
 		if i < len(c.Shared) && c.Shared[i] {
 			copy(buf, raw)
@@ -248,6 +267,11 @@ func TestSIDBufferReuse(t *testing.T) {
 			}
 			c.SIDs = append(c.SIDs, sc)
 			c.Shared = append(c.Shared, rapid.IntRange(0, 3).Draw(t, "shared") != 0)
+			b := 0
+			if rapid.IntRange(0, 4).Draw(t, "broken") == 0 {
+				b = rapid.SampledFrom([]int{1, 2, 3, 4, 5, 7, 8, 100, 101}).Draw(t, "how")
+			}
+			c.Broken = append(c.Broken, b)
 		}
 		return c
 	}, func(c sidSeqCase) []vf.Finding {
